@@ -387,12 +387,28 @@ impl Acc {
     }
 }
 
+thread_local! {
+    static DUMP: std::cell::Cell<bool> = std::cell::Cell::new(false);
+}
+
 fn judge(acc: &mut Acc, prop: Prop, fi: usize, s: Layout, d: Layout, case: impl Fn() -> String, out: TOut, ticks: u64, verdict: impl FnOnce() -> Verdict) {
+    if DUMP.with(|c| c.get()) {
+        if !(fi == 8 && !in_trig_domain(s, 2, case_operand(&case()))) {
+            println!("{}\t{}", case(), out);
+        }
+        return;
+    }
     acc.count(fi, &out);
     let pk = format!("{}->{} {}", s.name(), d.name(), FUNCS[fi]);
     match prop {
         Prop::C11 => {
-            out.hash_into(&mut acc.dig);
+            // tan is an operation without overflow handling: outside the domain on which the property
+            // promises a value (|x| <= 100, |tan x| <= 64) a profile-dependent overflow panic is permitted
+            if fi == 8 && !in_trig_domain(s, 2, case_operand(&case())) {
+                *acc.rep.extra.entry("tan_cases_outside_domain_not_digested".into()).or_default() += 1;
+            } else {
+                out.hash_into(&mut acc.dig);
+            }
         }
         Prop::C17 => {
             if fi == 5 {
@@ -889,7 +905,23 @@ fn main() {
             hp::selftest();
             oracle::selftest();
         }
-        "dump" => println!("(trans blocks: rerun ./check on the property to localise)"),
+        "dump" => {
+            // dump S D FUNC --tier T
+            let s = Layout::parse(&args.v[1]).unwrap();
+            let d = Layout::parse(&args.v[2]).unwrap();
+            let tier = Tier::parse(&args.get("tier").unwrap_or("quick".into()));
+            DUMP.with(|c| c.set(true));
+            let fi = FUNCS.iter().position(|f| *f == args.v[3]).unwrap();
+            if fi >= 6 {
+                let ts = trigs();
+                let t = ts.iter().find(|t| t.t == s).unwrap();
+                explore_trig(t, fi - 6, Prop::C11, tier);
+            } else {
+                let ps = pairs();
+                let p = ps.iter().find(|p| p.s == s && p.d == d).unwrap();
+                explore_pair(p, fi, Prop::C11, tier, None);
+            }
+        }
         _ => {
             eprintln!("usage: trans run --prop C12..C17|C11 --tier T --out FILE | replay FUNC S D A [B|N] | selftest");
             std::process::exit(2);
